@@ -4,7 +4,7 @@ CONSTANTS
   Years = {"absent", "text2008", "bin2008", "textempty", "textabc", "bin3", "bin0", "bin1", "bin5", "textmax", "textover", "text65536", "text007", "binmax"}
   Posters = {"absent", "empty", "one", "big"}
   Summaries = {"absent", "short", "utf8"}
-  Unknowns = {"none", "before", "after", "between"}
+  Unknowns = {"none", "before", "after", "between", "tiny"}
   Shapes = {"mdir", "mdirqt", "mdta", "zero", "noilst", "nometa", "noudta"}
   Hdrs = {"small", "data", "item", "all"}
   MMetas = {"none", "mdtaBefore", "mdirAfter", "mdirBefore"}
